@@ -8,6 +8,10 @@ from .shadow import SH
 from .mode import SymMode, STATS, OPLOG, FRAMES
 
 
+class ScenarioAbort(Exception):
+    """raised after a violation that makes the rest of the scenario meaningless"""
+
+
 def reset_all():
     CTX.reset()
     SH.reset()
@@ -202,6 +206,23 @@ class Scenario:
         if not cond:
             self.violations.append({"label": label, "kind": "concrete", "detail": detail})
         return bool(cond)
+
+    def must_not_raise(self, label, fn):
+        """run fn (a call into the library on a valid input): an exception raised by the library is a violation of any
+        property that says what the call returns; engine limitations (Unsupported / HarnessError) pass through"""
+        try:
+            return fn()
+        except (Unsupported, HarnessError):
+            raise
+        except Exception as e:
+            import traceback
+            tb = traceback.extract_tb(e.__traceback__)
+            where = [f for f in tb if "/gpytorch/" in f.filename or "/linear_operator/" in f.filename]
+            if not where:
+                raise
+            self._record(label + " raises", "concrete", "sat", detail=repr(e)[:200])
+            self.violations.append({"label": label + " raises", "kind": "exception", "detail": "%r at %s:%d" % (e, where[-1].filename, where[-1].lineno)})
+            raise ScenarioAbort(label)
 
     def _record(self, label, how, verdict, **kw):
         d = {"label": label, "how": how, "verdict": verdict}
